@@ -223,6 +223,18 @@ func (ex *Exec) checkPost(st *State, results []Value) {
 			lbl = fmt.Sprintf("ensures%d", i+1)
 		}
 		ex.oblige(st, "post", lbl, nil, g, "postcondition: "+cl.Text)
+		// later clauses may rely on earlier ones (each is proved in turn)
+		st.assume(g)
+	}
+	// a pointer receiver's type invariant is re-established on exit
+	if fn.Signature.Recv() != nil && len(fn.Params) > 0 {
+		if _, isPtr := types.Unalias(fn.Params[0].Type()).Underlying().(*types.Pointer); isPtr {
+			if rv := ex.entryBinds[fn.Params[0].Name()]; !rv.T.IsZero() {
+				if inv := ex.typeInv(st, fn.Params[0].Type(), rv.T); inv.S != "true" {
+					ex.oblige(st, "typeinv", "exit", nil, inv, "type invariant of the receiver holds on return")
+				}
+			}
+		}
 	}
 	// function-type contracts this function is used as
 	for _, ftn := range ex.con.Implements {
